@@ -27,11 +27,15 @@ def jobs(tier):
     for code in ["BSS", "BIS"] if tier == "quick" else ["BSS", "BIS", "BBS", "BSM"]:
         js.append({"code": code, "method": "fifo", "country": "us", "years": [2020, 2021], "filter": "to", "off": "shared"})
     js.append({"code": "BS", "method": "fifo", "country": "us", "years": [2020, 2021], "filter": "from-to", "off": "shared"})
+    # acquisitions that carry the exchange's own total (fiat_in_with_fee differing from amount x price + fee): the summary adds
+    # up the cost bases of the detail, whatever they were derived from
+    for code, m in [("BS", "fifo"), ("BBS", "lifo")] if tier == "quick" else [("BS", "fifo"), ("BBS", "lifo"), ("BSS", "fifo"), ("BBS", "hifo")]:
+        js.append({"code": code, "method": m, "country": "us", "years": [2020, 2021], "filter": "to", "wf": True})
     return js
 
 
 def describe(spec):
-    return "%s %s %s%s %s%s" % (spec["code"], spec["method"], spec["country"], "" if spec["country"] != "generic" else "(P=%d)" % spec["period"], spec["filter"], " shared-offset" if spec.get("off") else "")
+    return "%s %s %s%s %s%s" % (spec["code"], spec["method"], spec["country"], "" if spec["country"] != "generic" else "(P=%d)" % spec["period"], spec["filter"], (" shared-offset" if spec.get("off") else "") + (" supplied-total" if spec.get("wf") else ""))
 
 
 def weight(spec):
@@ -39,7 +43,7 @@ def weight(spec):
 
 
 def bounds(tier):
-    return {"history_length": 3 if tier == "quick" else "3-4", "window_years": "2020-2022 (US, period 365) / 2020-2021 (generic, period 1 day)", "to_date": "any date from 2019-12-30 to the day after the window", "from_date": "jobs 'from-to': any date <= to_date in the same range", "amounts": "k*1e-11 in [1e-11, 1e9]", "prices": "k*1e-4 in [1e-4, 1e6]", "utc_offset": "jobs marked shared-offset: one symbolic offset in [-12:00, +14:00] shared by all timestamps; otherwise UTC", "outside": ["Summary sheet cells (C13)", "different UTC offsets inside one history"]}
+    return {"history_length": 3 if tier == "quick" else "3-4", "window_years": "2020-2022 (US, period 365) / 2020-2021 (generic, period 1 day)", "to_date": "any date from 2019-12-30 to the day after the window", "from_date": "jobs 'from-to': any date <= to_date in the same range", "amounts": "k*1e-11 in [1e-11, 1e9]", "prices": "k*1e-4 in [1e-4, 1e6]", "supplied_totals": "jobs marked supplied-total: every acquisition carries an exchange-supplied fiat_in_with_fee, k cents in [0.01, 1e11], unrelated to amount x price + fee", "utc_offset": "jobs marked shared-offset: one symbolic offset in [-12:00, +14:00] shared by all timestamps; otherwise UTC", "outside": ["Summary sheet cells (C13)", "different UTC offsets inside one history"]}
 
 
 def assumptions():
@@ -52,7 +56,12 @@ def run(S, spec):
     years = spec["years"]
     S.set_years(years)
     off = S.int("off", -720, 840) if spec.get("off") else None
-    h = Hist(S, slots_of(spec["code"]), years, shared_off=off, shared_sym=off is not None)
+    slots = slots_of(spec["code"])
+    if spec.get("wf"):
+        for s in slots:
+            if s["table"] == "IN":
+                s["wf"] = True
+    h = Hist(S, slots, years, shared_off=off, shared_sym=off is not None)
     lo = date(years[0], 1, 1).toordinal() - 2
     hi = date(years[-1], 12, 31).toordinal() + 1
     to_ord = S.int("to", lo, hi)
